@@ -12,7 +12,7 @@ import io
 import os
 import zlib
 
-from .common import H, REAL, fresh_dir, rmtree
+from .common import H, REAL, fresh_dir, maybe_collect, rmtree
 
 from disk_objectstore import Container
 
@@ -118,6 +118,7 @@ def run_program(fx: Fixture, acq: str, prog, want_canon=True):
     Returns (violation or None, canonical product state after the last op or None).
     """
     fx.reset()
+    maybe_collect(2000)
     content = fx.content
     n = len(content)
     result = [None, None]
